@@ -137,6 +137,8 @@ def run(ctx):
                           {"scenario": t["desc"], "events": t["ev"], "outcome": t["outcome"],
                            "verdict": v})
     res.add_validation(stats, accepted)
+    from .. import manager_phase
+    manager_phase.run_phase(ctx, res, "C09")
     res.coverage["distinct_abstract_classes_hit"] = len(classes)
     for t in traces[:2] + traces[-2:]:
         res.sample({"scenario": t["desc"], "apdu_classes": t["classes"], "outcome": t["outcome"],
